@@ -180,6 +180,28 @@ def interpolation_shape(P, rep, rule="I1"):
                         ok = True
                 else:
                     why = "section_fraction multiplies %s which is not a difference added to a base term" % R(other)[:50]
+            if not ok and par is not None and par.get("k") == "CXXOperatorCallExpr" and norm.lambda_call(par, norm.naming_locals(P, F)) is not None:
+                # f handed to a single-return local lambda: judge the call with the body substituted (beta reduction), algebraically
+                import sympy as sp
+                symb = norm.Sym(P, F, inline_locals=False)
+                E = sp.expand(symb(par))
+                fs = [q for q in E.free_symbols if str(q).startswith("section_fraction@")]
+                cs = [q for q in E.free_symbols if str(q).startswith("current_section@")]
+                ns = [q for q in E.free_symbols if str(q).startswith("next_section@")]
+                gp = par
+                if len(fs) == 1 and len(cs) == 1 and len(ns) == 1:
+                    f_ = fs[0]
+                    try:
+                        deg = sp.Poly(E, f_).degree()
+                    except Exception:
+                        deg = -1
+                    A0, B0 = sp.expand(E.subs(f_, 0)), sp.expand(E.subs(f_, 1))
+                    if deg == 1 and not A0.has(ns[0]) and sp.expand(A0.xreplace({cs[0]: ns[0]}) - B0) == 0:
+                        ok = True
+                    else:
+                        why = "the lambda call %s is not cur + f*(nxt - cur)" % R(par)[:60]
+                else:
+                    why = "the lambda call %s does not interpolate between the current and the next section" % R(par)[:60]
             if not ok and par is not None and par.get("k") == "CallExpr" and P.d(par.get("callee")).get("qn", "").endswith("quaternion::slerp"):
                 # orientation: slerp(q(cur), q(nxt), f) -- the spherical analogue of cur + f*(nxt - cur)
                 a = [sc(z) for z in par["c"][1:]]
@@ -260,7 +282,7 @@ def table_provenance(P, rep, rule="K2"):
     n = 0
     for name, cls in LINE.items():
         F = P.func(cls + "::parse_entries")
-        R = lambda x: norm.render(P, x, nocast=True).replace(" ", "")
+        R = lambda x, F=F: norm.render(P, x, nocast=True, subst=norm.naming_locals(P, F)).replace(" ", "").replace("this->", "")
         want = {"lengths": "value_length", "thickness": "value_thickness", "top_truncation": "value_top_truncation", "angles": "value_angle"}
         seen = set()
         for x in F.walk():
@@ -300,7 +322,7 @@ def table_provenance(P, rep, rule="K2"):
                 rep.violation(rule, "%s: %s resized to %s" % (name, tbl, sized[tbl]), F.loc, F.qn, "", "the table does not have one row per coordinate",
                               key="%s|%s|size|%s" % (rule, name, tbl), witness="feature with 3 coordinates")
         sv = sized.get("segment_vector", [])
-        if ["n_sections", "default_segment_vector"] in sv:
+        if ["n_sections", "default_segment_vector"] in sv or ["original_number_of_coordinates", "default_segment_vector"] in sv:
             rep.ok(rule, "%s: segment_vector.resize(n_sections, default_segment_vector)" % name, F.loc, F.qn)
             n += 1
         else:
@@ -308,7 +330,8 @@ def table_provenance(P, rep, rule="K2"):
                           key="%s|%s|segment_vector" % (rule, name), witness="feature without section overrides")
         # n_sections = original_number_of_coordinates
         nd = [x for x in F.walk() if x.get("k") == "VarDecl" and x.get("n") == "n_sections" and x.get("c")]
-        if len(nd) == 1 and R(nd[0]["c"][0]) in ("this->original_number_of_coordinates", "original_number_of_coordinates"):
+        if (len(nd) == 1 and R(nd[0]["c"][0]) in ("this->original_number_of_coordinates", "original_number_of_coordinates")) or \
+                (not nd and ["original_number_of_coordinates", "default_segment_vector"] in sv):
             rep.ok(rule, "%s: n_sections = original_number_of_coordinates" % name, F.nloc(nd[0]), F.qn)
         else:
             rep.violation(rule, "%s: n_sections = %s" % (name, R(nd[0]["c"][0]) if nd else "?"), F.loc, F.qn, "", "number of sections differs from the number of coordinates",
